@@ -607,7 +607,7 @@ class BLOBType(DataType):
     def import_value(self, value):
         """returns a python object from serialisation"""
         try:
-            return b64decode(value)
+            return b64decode(value, validate=True)
         except Exception:
             raise WrongTypeError(f'can not b64decode {shortrepr(value)}') from None
 
